@@ -256,4 +256,26 @@ def regionsHistory (env : Env) : List Call → List Call → List (List String)
   | _, [] => []
   | earlier, c :: rest => regions env earlier c :: regionsHistory env (earlier ++ [c]) rest
 
+/-! ### call trees: the specification of a call does not look at what its body does, nor at who called it -/
+
+def _root_.PedVerif.TypeVars.Tree.call : Tree → Call
+  | .node c _ _ => c
+
+mutual
+/-- what the property demands of the calls made below a call (pre-order, aligned with `TRes.log`) -/
+def specBelow (env : Env) : Tree → List Verdict
+  | .node _ _ body => specBody env body
+def specBody (env : Env) : List Tree → List Verdict
+  | [] => []
+  | t :: ts => specCall env t.call :: (specBelow env t ++ specBody env ts)
+end
+
+mutual
+def regionsBelow (env : Env) (earlier : List Call) : Tree → List (List String)
+  | .node _ _ body => regionsBody env earlier body
+def regionsBody (env : Env) (earlier : List Call) : List Tree → List (List String)
+  | [] => []
+  | t :: ts => regions env earlier t.call :: (regionsBelow env earlier t ++ regionsBody env earlier ts)
+end
+
 end PedVerif.TypeVars.Spec
